@@ -94,10 +94,6 @@ def _where(exc):
 
 
 # ------------------------------------------------------------------ structural diff
-def _effects_view(effs):
-    return sorted(str(e) for e in effs)
-
-
 def _action_diff(a, b):
     if type(a) is not type(b):
         return "class"
